@@ -1,3 +1,4 @@
 //! Shared generators (proptest strategies).
+pub mod annot;
 pub mod text;
 pub mod wb;
